@@ -139,8 +139,10 @@ type Ref struct {
 
 type refStream struct{ groups [][]*auparse.AuditMessage }
 
-func (s *refStream) ReassemblyComplete(msgs []*auparse.AuditMessage) { s.groups = append(s.groups, msgs) }
-func (s *refStream) EventsLost(int)                                   {}
+func (s *refStream) ReassemblyComplete(msgs []*auparse.AuditMessage) {
+	s.groups = append(s.groups, msgs)
+}
+func (s *refStream) EventsLost(int) {}
 
 // refEvents pushes the lines through a reassembler of its own (separately parsed messages:
 // coalescing consumes the parsed data) and coalesces what it delivers, with the same
